@@ -28,7 +28,7 @@ theorem retryable_error_iff (resp : Option Resp) (e : HErr) :
     retryHandle resp (some e) = true ↔
       (e.unsupportedScheme = false ∧
        ¬ (e.isUrlError = true ∧ (e.certNotTrusted = true ∨ e.stoppedAfterRedirects = true ∨ e.unknownAuthority = true))) := by
-  obtain ⟨us, u, c, r, ua, cn⟩ := e
+  obtain ⟨us, u, c, r, ua, cn, dl⟩ := e
   cases us <;> cases u <;> cases c <;> cases r <;> cases ua <;> simp [retryHandle, retryableError]
 
 theorem nothing_to_retry : retryHandle none none = false := rfl
